@@ -17,7 +17,13 @@ RULE = ('flowsheets of real thermosteam.network.AbstractUnit subclasses joined b
         'occasional parallel streams), and the same with 1-3 added back-edges (occasionally a unit feeding itself) such that every unit is still fed and still '
         'reaches a product. kind=net: Network.from_units on a random permutation of the unit list (all permutations of one '
         'flowsheet for n<=4 quick / n<=6 thorough); the observed nested path, recycles and a cycle witness are checked by the '
-        'verified Gallina checker, and flat path / get_all_recycles are compared with the Gallina functions. kind=sort: '
+        'verified Gallina checker, flat path / get_all_recycles are compared with the Gallina functions, and the loops found by '
+        'fill_path with the top-level join_recycle_network calls of every from_feedstock invocation (which loop, network.units '
+        'before the call, raised or not) are compared with the model of the loop-join order. Structured families on top of the '
+        'random flowsheets: chains with k staggered / nested / overlapping returns, fans, staggered loops inside an outer loop, '
+        'ladders (cyclic and acyclic), each with the feedstock entering at the upstream end, the downstream end, both, or the '
+        'middle; every ordering of the unit list for n<=3 and for the chained-loop families at n=4 (quick) / n<=5 (thorough). '
+        'kind=sort: '
         'Network(path).sort(ends) on a random permutation of a (sub)set of the units with a random set of cut streams, '
         'compared with the Coq model (exact order, stop flag = no warning, recycle set, PathSource.units of every item). '
         'non-trivial = sort changed the order or reported a recycle / from_units result has >= 3 units; distinct = distinct case hash')
@@ -28,6 +34,9 @@ ASSUMPTIONS = ['reach is a strict partial order in the sort theorems: holds when
                'no unit is `_universal` or `_interaction`, no auxiliary units, no marked disjunctions, feed priorities unset']
 TRUSTED = ['model coq/C19/Model.v (split_first/sweep/sort_loop, dloop) is hand-written from thermosteam/network.py:2419-2455 and '
            ':1740-1766, :2100-2117; tie = correspondence check',
+           'model of the loop-join order (pick/join_loops) is hand-written from the `while recycle_networks` block of '
+           'Network.from_feedstock; join_recycle_network is abstracted to "raises iff the loop shares no unit with the network, '
+           'else network.units becomes the union" and that abstraction is compared with the observed calls on every case',
            'encoding of the observed Network tree and of the flowsheet graph into Gallina (props/C19.py: ctree, cedges)',
            'cycle witness search and acyclicity test in the harness are untrusted: the checker validates the witness and '
            'derives acyclicity itself']
@@ -206,6 +215,95 @@ def gen_flowsheet(rng, n, cyclic):
         case, _ = add_back_edges(rng, case, rng.randint(1, 3))
     return case
 
+# ------------------------------------------------------------------ structured families
+def mk_flowsheet(n, pairs, feeds, prods, relabel=None):
+    """flowsheet from unit pairs (u, v) = one stream u->v each, extra feed / product ports at the listed units
+    (a unit without inlet gets a feed, without outlet a product); None when a unit would need more than 3 ports"""
+    lab = relabel or list(range(n))
+    indeg, outdeg = [0] * n, [0] * n
+    edges = []
+    for u, v in pairs:
+        edges.append([lab[u], outdeg[u], lab[v], indeg[v]]); outdeg[u] += 1; indeg[v] += 1
+    nin, nout = [0] * n, [0] * n
+    for u in range(n):
+        nin[lab[u]] = indeg[u] + (1 if (u in feeds or indeg[u] == 0) else 0)
+        nout[lab[u]] = outdeg[u] + (1 if (u in prods or outdeg[u] == 0) else 0)
+    if max(nin) > 3 or max(nout) > 3: return None
+    case = {'n': n, 'nin': nin, 'nout': nout, 'edges': edges}
+    return case if well_formed(case) else None
+
+def chain(n):
+    return [(i, i + 1) for i in range(n - 1)]
+
+def family_flowsheets(rng, n):
+    """(name, pairs) of n-unit flowsheets: a forward chain (or ladder) with back-edges in regular patterns"""
+    fams = []
+    c = chain(n)
+    # staggered: i+1 -> i for a run of consecutive i (loops chained A-B-C, each touching only its neighbours)
+    for k in range(1, n):
+        for start in range(0, n - k):
+            fams.append((f'staggered{k}', c + [(i + 1, i) for i in range(start, start + k)]))
+    # nested: n-1-j -> j
+    for k in range(1, n // 2 + 1):
+        fams.append((f'nested{k}', c + [(n - 1 - j, j) for j in range(k) if n - 1 - j > j]))
+    # overlapping: i+2 -> i
+    for k in range(1, n - 1):
+        fams.append((f'overlap{k}', c + [(i + 2, i) for i in range(k)]))
+    # fan: several units return to unit 0 / the last unit returns to several
+    for k in range(1, min(3, n)):
+        fams.append((f'fan_in{k}', c + [(j, 0) for j in range(n - 1, n - 1 - k, -1)]))
+        fams.append((f'fan_out{k}', c + [(n - 1, j) for j in range(k)]))
+    # staggered loops plus one loop spanning them all
+    if n >= 4:
+        fams.append(('staggered+outer', c + [(i + 1, i) for i in range(1, n - 2)] + [(n - 1, 0)]))
+    # ladder: two chains a_i, b_i with rungs a_i -> b_i and returns b_{i+1} -> a_i
+    if n >= 4 and n % 2 == 0:
+        m = n // 2
+        a = list(range(m)); b = list(range(m, n))
+        lad = [(a[i], a[i + 1]) for i in range(m - 1)] + [(b[i], b[i + 1]) for i in range(m - 1)] + [(a[i], b[i]) for i in range(m)]
+        fams.append(('ladder', lad + [(b[i + 1], a[i]) for i in range(m - 1)]))
+        fams.append(('ladder_cross', lad + [(b[i], a[i - 1]) for i in range(1, m)]))
+        fams.append(('ladder_acyclic', lad))
+    return fams
+
+def feed_variants(n):
+    return [[0], [n - 1], [0, n - 1], [n // 2], [0, n // 2, n - 1]]
+
+def priority(name):
+    """families whose loops are chained / interlocked: these get every ordering of the unit list"""
+    return name in ('staggered2', 'staggered3', 'staggered4', 'nested2', 'staggered+outer', 'ladder', 'ladder_cross', 'overlap2')
+
+def sample_orders(rng, n, k):
+    base = [list(range(n)), list(range(n - 1, -1, -1))]
+    while len(base) < k:
+        o = list(range(n)); rng.shuffle(o); base.append(o)
+    return base[:k]
+
+def structured_cases(rng, tier):
+    quick = tier == 'quick'
+    cases = []
+    for n in ([3, 4, 5, 6] if quick else [2, 3, 4, 5, 6, 7, 8]):
+        for name, pairs in family_flowsheets(rng, n):
+            pri = priority(name)
+            fvs = feed_variants(n)
+            if n >= 4: fvs = fvs[:3] if pri else [rng.choice(fvs[:3]), fvs[3]]
+            full = n <= 3 or (pri and n <= (4 if quick else 5))
+            seen = set()
+            for feeds in fvs:
+                prods = {n - 1} | ({rng.randrange(n)} if rng.random() < 0.5 else set())
+                fs = mk_flowsheet(n, pairs, set(feeds), prods)
+                if fs is None or str(fs) in seen: continue
+                seen.add(str(fs))
+                if full:
+                    orders = [list(o) for o in itertools.permutations(range(n))]
+                elif quick:
+                    orders = sample_orders(rng, n, 6 if pri else 3)
+                else:
+                    orders = sample_orders(rng, n, 40 if pri else 8)
+                for o in orders:
+                    cases.append({'kind': 'net', **fs, 'order': o, 'family': name})
+    return cases
+
 def gen_cases(rng, tier):
     quick = tier == 'quick'
     cases = []
@@ -222,6 +320,8 @@ def gen_cases(rng, tier):
             fs = gen_flowsheet(rng, n, rng.random() < 0.5)
             for order in itertools.permutations(range(n)):
                 cases.append({'kind': 'net', **fs, 'order': list(order)})
+    # --- structured families, every ordering of the unit list for the small ones
+    cases += structured_cases(rng, tier)
     # --- Network.sort on flat paths
     n_sort = 140 if quick else 2500
     for _ in range(n_sort):
@@ -282,6 +382,9 @@ def net_tree(net, uid, sid):
     return {'path': [net_tree(i, uid, sid) if isinstance(i, nw.Network) else uid[i] for i in net.path],
             'recycle': recycle_ids(net.recycle, sid)}
 
+def clean_joins(joins):
+    return [{'loops': j['loops'], 'calls': j['calls'], 'ok': j['ok']} for j in joins if j['loops']]
+
 WARN = 'network path could not be determined'
 
 def run_impl(case):
@@ -290,15 +393,42 @@ def run_impl(case):
     uid = {u: k for k, u in enumerate(units)}
     sid = {s: k for k, s in streams.items()}
     if case['kind'] == 'net':
-        with warnings.catch_warnings(record=True) as w:
-            warnings.simplefilter('always')
+        # observe (without changing) the loop-joining phase of every from_feedstock invocation:
+        # the loops found by fill_path and the top-level join_recycle_network calls, in order
+        joins, depth = [], [0]
+        find0, join0 = nw.find_linear_and_cyclic_paths_with_recycle, nw.Network.join_recycle_network
+        def find(feed, ends, units_):
+            r = find0(feed, ends, units_)
+            joins.append({'loops': [[uid[u] for u in p] for p, _ in r[1]], 'paths': [p for p, _ in r[1]],
+                          'calls': [], 'ok': True})
+            return r
+        def join(self, network):
+            top = depth[0] == 0 and joins
+            if top:
+                rec = joins[-1]
+                k = [i for i, p in enumerate(rec['paths']) if p is network.path]
+                rec['calls'].append([k[0] if k else -1, sorted(uid[u] for u in self.units)])
+            depth[0] += 1
             try:
-                net = nw.Network.from_units([units[k] for k in case['order']])
-            except Exception as ex:
-                return {'raised': type(ex).__name__ + ': ' + str(ex)[:80]}
+                return join0(self, network)
+            except Exception:
+                if top: rec['ok'] = False
+                raise
+            finally:
+                depth[0] -= 1
+        nw.find_linear_and_cyclic_paths_with_recycle, nw.Network.join_recycle_network = find, join
+        try:
+            with warnings.catch_warnings(record=True) as w:
+                warnings.simplefilter('always')
+                try:
+                    net = nw.Network.from_units([units[k] for k in case['order']])
+                except Exception as ex:
+                    return {'raised': type(ex).__name__ + ': ' + str(ex)[:80], 'joins': clean_joins(joins)}
+        finally:
+            nw.find_linear_and_cyclic_paths_with_recycle, nw.Network.join_recycle_network = find0, join0
         return {'tree': net_tree(net, uid, sid),
                 'all_recycles': sorted(sid[s] for s in net.get_all_recycles()),
-                'warned': any(WARN in str(x.message) for x in w)}
+                'warned': any(WARN in str(x.message) for x in w), 'joins': clean_joins(joins)}
     ends = {streams[s] for s in case['ends']}
     path = [units[k] for k in case['path']]
     down = [sorted(uid[x] for x in nw.PathSource(u, ends).units) for u in path]
@@ -339,16 +469,23 @@ def strict_on_path(case):
     return (all(a not in down[a] for a in p) and
             all(c in down[a] for a in p for b in p for c in p if b in down[a] and c in down[b]))
 
+def join_term(j):
+    """the model of from_feedstock's loop-join order gives exactly the observed calls (loop position, network units before)"""
+    n0 = j['calls'][0][1] if j['calls'] else []
+    calls = clist([f'({k}, {nl(N)})' for k, N in j['calls']])
+    return f'join_case {nl(n0)} {clist(j["loops"], nl)} {calls} {cbool(j["ok"])}'
+
 def coq_case(case, out):
     if case['kind'] == 'sort':
         return (f'(sort_case {cedges(case)} {nl(case["ends"])} {nl(case["path"])} {nl(out["path"])} '
                 f'{cbool(out["stop"])} {nl(out["recycle"])} {clist(out["down"], nl)} {cbool(strict_on_path(case))})')
+    jt = ' && '.join(join_term(j) for j in out.get('joins', [])) or 'true'
     if 'raised' in out:
-        return 'false'
+        return f'({jt} && false)'
     t = ctree(out['tree'])
     term = (f'(check {nl(case["order"])} {cedges(case)} {t} {nl(find_cycle(case))} '
             f'&& list_eqb Nat.eqb (flat {t}) {nl(flat(out["tree"]))} '
-            f'&& set_eqb (all_recycles {t}) {nl(out["all_recycles"])})')
+            f'&& set_eqb (all_recycles {t}) {nl(out["all_recycles"])} && {jt})')
     return term
 
 def coq_show(case, out):
@@ -366,6 +503,7 @@ def nontrivial(case, out):
 
 def classify(case, out):
     ks = ['kind:' + case['kind'], f'units:{case["n"]}', 'graph:' + ('cyclic' if is_cyclic(case) else 'acyclic')]
+    if 'family' in case: ks.append('family:' + case['family'].rstrip('0123456789'))
     if case['kind'] == 'sort':
         ks.append('sort:reach-' + ('strict-order' if strict_on_path(case) else 'cyclic'))
         ks.append('sort:' + ('moved' if out.get('path') != case['path'] else 'already-ordered'))
@@ -382,6 +520,9 @@ def classify(case, out):
             ks.append(f'net:depth{depth(out["tree"])}')
             ks.append(f'net:recycles{min(len(out["all_recycles"]), 4)}')
             if out.get('warned'): ks.append('net:warned')
+        for j in out.get('joins', []):
+            ks.append(f'join:loops{min(len(j["loops"]), 5)}')
+            if [k for k, _ in j['calls']] != list(range(len(j['calls']))): ks.append('join:reordered')
         if any(u == v for s, u, v in process_edges(case)): ks.append('graph:self-loop')
         out_sid, in_sid, src, dst = stream_table(case)
         ks.append(f'feeds:{min(sum(1 for s in src if src[s] is None), 4)}')
@@ -445,5 +586,9 @@ CORPUS = [
     {'kind': 'net', 'n': 5, 'nin': [1, 1, 1, 2, 3], 'nout': [1, 2, 1, 2, 2],
      'edges': [[3, 0, 1, 0], [1, 1, 0, 0], [4, 0, 3, 0], [4, 1, 2, 0], [0, 0, 3, 1], [2, 0, 4, 1], [3, 1, 4, 2]],
      'order': [2, 4, 3, 1, 0]},
+    # chain u0->u1->u2->u3 with returns u1->u0, u2->u1, u3->u2, feeds at u0 and u3, u3 supplied first: three loops
+    # chained A-B-C of which only one touches the linear network; needs the overlap re-check before *each* join
+    {'kind': 'net', 'n': 4, 'nin': [2, 2, 2, 2], 'nout': [1, 2, 2, 3],
+     'edges': [[0, 0, 1, 0], [1, 0, 2, 0], [2, 0, 3, 0], [1, 1, 0, 0], [2, 1, 1, 1], [3, 1, 2, 1]], 'order': [3, 0, 1, 2]},
 ]
 WITNESSES = []
